@@ -209,10 +209,13 @@ def main():
             rac.fail("grammar " + s, f"C19 {s!r} {bad[0]}: expression built earlier / deferred / immediate / Python give {bad[1]}", scr, "MadxEval")
     rac.section("equal-valued-changes", "variables changed through the manager to a number that compares == to the stored one but is a different number "
                 "(-0.0 <-> 0.0: visible through atan2; int <-> float of the same value: integer arithmetic is exact beyond 2**53), interleaved with "
-                "ordinary changes: deferred == immediate == Python after every change", "8 strings x 7 changes")
+                "ordinary changes: deferred == immediate == Python after every change", "12 strings x 7 changes")
     ev_cases = [("atan2(z,(-1))", "math.atan2(z,(-1))"), ("atan2(z,(-a))", "math.atan2(z,(-a))"), ("atan2((z*a),(-1))", "math.atan2((z*a),(-1))"),
                 ("(p^(p+p))+1", "((p**(p+p))+1.0)"), ("((p^(p+p))+n)-(p^(p+p))", "(((p**(p+p))+n)-(p**(p+p)))"), ("n^40", "(n**40.0)"),
-                ("(a+(z*n))", "(a+(z*n))"), ("atan2(z,(-1))*p^(p+p+1)", "(math.atan2(z,(-1.0))*(p**((p+p)+1.0)))")]
+                ("(a+(z*n))", "(a+(z*n))"), ("atan2(z,(-1))*p^(p+p+1)", "(math.atan2(z,(-1.0))*(p**((p+p)+1.0)))"),
+                # neutral literals next to a signed zero: (-0.0) + 0 is +0.0 (wave 10, C19-19: x + 0 rewritten to x when the expression is built)
+                ("atan2((0)+(-(z)),(-1))", "math.atan2(((0)+(-(z))),(-1))"), ("atan2((-(z))+(0),(-1))", "math.atan2(((-(z))+(0)),(-1))"),
+                ("atan2((-(z))-(0),(-1))", "math.atan2(((-(z))-(0)),(-1))"), ("atan2((1)*(-(z)),(-1))", "math.atan2(((1)*(-(z))),(-1))")]
     ev_changes = [("z", -0.0), ("a", -3.5), ("z", 0.0), ("p", 10.0), ("n", 3.0), ("p", 10), ("z", -0.0)]
     for s, mirror in ev_cases:
         env = mkenv()
